@@ -55,10 +55,11 @@ impl GraphStore for GraphEngine {
     fn snapshot(&self) -> Self::Snapshot {
         #[cfg(luqing_studio_nervusdb_verif)]
         nervusdb_api::verif_hooks::sched("snapshot.before_i2e");
+        let _publish = self.publish_read_guard();
         let i2e = Arc::new(self.scan_i2e_records());
         #[cfg(luqing_studio_nervusdb_verif)]
         nervusdb_api::verif_hooks::sched("snapshot.after_i2e");
-        let inner = self.begin_read();
+        let inner = self.begin_read_published();
         let mut tombstoned_nodes: HashSet<InternalNodeId> = collect_tombstoned_nodes(inner.runs());
         tombstoned_nodes.extend(i2e.iter().enumerate().filter_map(|(iid, r)| {
             (r.flags & crate::idmap::I2E_FLAG_TOMBSTONED != 0).then_some(iid as InternalNodeId)
